@@ -159,6 +159,7 @@ class World:
         self.njob = 0
         self.ncommit = 0
         self.status_history = []  # (sha, key, state, t, by)
+        self.status_descriptions = []
         self.robot_tips = []      # shas that were tips of robot refs
         self.dest_history = {}    # dest ref -> [shas it has pointed to]
         self.third_party_log = []
@@ -645,6 +646,8 @@ class World:
                 (rev, k.get('key', a[1] if len(a) > 1 else None),
                  k.get('state', a[2] if len(a) > 2 else None),
                  self.clock.t, login))
+            if k.get('description'):
+                self.status_descriptions.append(str(k['description']))
         if not self.in_job or login != ROBOT:
             return orig(obj, *a, **k)
         if self.dead:
